@@ -120,7 +120,11 @@ func (r gRec) write(final bool) string {
 			if qi < len(f.wrapAt) {
 				w = f.wrapAt[qi]
 			}
-			if w > 0 && w < len(q.v) {
+			if w > 0 && w == len(q.v) {
+				// the value fills the line exactly: only the closing quote moves to the next line
+				b += gSpaces(21) + "/" + q.k + "=\"" + q.v + "\n"
+				b += gSpaces(21) + "\"\n"
+			} else if w > 0 && w < len(q.v) {
 				// wrapped at a space of the value: the space is replaced by the line break
 				b += gSpaces(21) + "/" + q.k + "=\"" + q.v[:w] + "\n"
 				b += gSpaces(21) + q.v[w+1:] + "\"\n"
@@ -248,7 +252,7 @@ func c01Record(tag string, small bool) gRec {
 		r.comment = "A comment " + vBytes(2, c01Word) + "."
 	}
 	vn := vTier(2, 3)
-	switch vChoice(7) {
+	switch vChoice(8) {
 	case 0:
 	case 1:
 		r.feats = []gFeat{{key: "gene", locLines: []string{"1..3"}, quals: []gQual{{"gene", c01Value(vn)}}}}
@@ -263,6 +267,10 @@ func c01Record(tag string, small bool) gRec {
 		r.feats = []gFeat{{key: "gene", locLines: []string{"1..4"}, quals: []gQual{{"note", v}}, wrapAt: []int{vn}}}
 		vFindingClause("C01-F7", "qualifier-values-verbatim", v[vn+1] == '/')
 		vFindingClause("C01-F7", "qualifier-set-as-written", v[vn+1] == '/')
+	case 7:
+		v := c01Value(vn)
+		r.feats = []gFeat{{key: "gene", locLines: []string{"1..4"}, quals: []gQual{{"note", v}, {"gene", "after"}}, wrapAt: []int{vn}},
+			{key: "CDS", locLines: []string{"2..3"}, quals: []gQual{{"product", "later"}}}}
 	case 6:
 		r.feats = []gFeat{{key: "gene", locLines: []string{"1..3"}, quals: []gQual{{"gene", c01Value(vn)}, {"note", "plain text"}}},
 			{key: "CDS", locLines: []string{"<1..>4"}, quals: []gQual{{"product", c01Value(vn)}, {"codon_start", "1"}}}}
